@@ -387,6 +387,12 @@ pub fn tiny_fragmented_mp4() -> Vec<u8> {
 
 /// JPEG XL container with a fake codestream box (the SDK never decodes the codestream).
 pub fn tiny_jxl(extra_boxes: bool) -> Vec<u8> {
+    tiny_jxl_ex(extra_boxes, false)
+}
+
+/// `foreign_jumb`: additionally carries a JUMBF superbox that is *not* a C2PA manifest store
+/// (description type JSON content, label "verif.foreign") in front of the codestream.
+pub fn tiny_jxl_ex(extra_boxes: bool, foreign_jumb: bool) -> Vec<u8> {
     let mut v = crate::fmt::jxl::MAGIC.to_vec();
     let mut p = b"jxl ".to_vec();
     p.extend_from_slice(&0u32.to_be_bytes());
@@ -394,6 +400,14 @@ pub fn tiny_jxl(extra_boxes: bool) -> Vec<u8> {
     v.extend(bx(b"ftyp", &p));
     if extra_boxes {
         v.extend(bx(b"Exif", &[0, 0, 0, 0, b'I', b'I', 42, 0, 8, 0, 0, 0, 0, 0]));
+    }
+    if foreign_jumb {
+        // jumd: 16-byte content type UUID (JSON content type), toggles 0x03, label
+        let mut jumd = vec![0x6A, 0x73, 0x6F, 0x6E, 0x00, 0x11, 0x00, 0x10, 0x80, 0x00, 0x00, 0xAA, 0x00, 0x38, 0x9B, 0x71, 0x03];
+        jumd.extend_from_slice(b"verif.foreign\0");
+        let mut payload = bx(b"jumd", &jumd);
+        payload.extend(bx(b"json", br#"{"not":"c2pa"}"#));
+        v.extend(bx(b"jumb", &payload));
     }
     let mut cs = vec![0xFF, 0x0A];
     cs.extend((0..61u8).map(|i| i.wrapping_mul(13)));
@@ -448,6 +462,11 @@ pub fn tiny_webp(n: usize) -> Vec<u8> {
 
 /// AVI skeleton: RIFF AVI (LIST hdrl(avih), LIST movi(00dc odd-sized, 01wb), idx1) [+ RIFF AVIX(LIST movi)].
 pub fn tiny_avi(avix: bool) -> Vec<u8> {
+    tiny_avi_n(if avix { 1 } else { 0 })
+}
+
+/// Same with `n_avix` extra top-level `RIFF AVIX` chunks (OpenDML files have many).
+pub fn tiny_avi_n(n_avix: usize) -> Vec<u8> {
     let mut hdrl = b"hdrl".to_vec();
     hdrl.extend(riff_chunk(b"avih", &[0u8; 56]));
     let mut movi = b"movi".to_vec();
@@ -460,9 +479,9 @@ pub fn tiny_avi(avix: bool) -> Vec<u8> {
     let mut v = b"RIFF".to_vec();
     v.extend_from_slice(&(body.len() as u32).to_le_bytes());
     v.extend(body);
-    if avix {
+    for k in 0..n_avix {
         let mut movi2 = b"movi".to_vec();
-        movi2.extend(riff_chunk(b"00dc", &(0..30u8).map(|i| 255 - i).collect::<Vec<u8>>()));
+        movi2.extend(riff_chunk(b"00dc", &(0..(30 + 3 * k as u8)).map(|i| 255 - i - k as u8).collect::<Vec<u8>>()));
         let mut body2 = b"AVIX".to_vec();
         body2.extend(riff_chunk(b"LIST", &movi2));
         v.extend_from_slice(b"RIFF");
@@ -696,6 +715,7 @@ pub fn extended_tiny_assets() -> Vec<Asset> {
     add("tiny_even.webp", "webp", tiny_webp(28));
     add("tiny.avi", "avi", tiny_avi(false));
     add("tiny_avix.avi", "avi", tiny_avi(true));
+    add("tiny_avix3.avi", "avi", tiny_avi_n(3));
     add("tiny_even.tif", "tif", assets::tiny_tiff(36));
     add("tiny_be.tif", "tif", tiny_tiff_ex(false, false, 1, 21, false));
     add("tiny_multipage.tif", "tif", tiny_tiff_ex(false, true, 3, 17, true));
@@ -705,6 +725,7 @@ pub fn extended_tiny_assets() -> Vec<Asset> {
     add("tiny_padding.flac", "flac", tiny_flac(true));
     add("tiny.jxl", "jxl", tiny_jxl(false));
     add("tiny_exif.jxl", "jxl", tiny_jxl(true));
+    add("tiny_foreign_jumb.jxl", "jxl", tiny_jxl_ex(false, true));
     add("tiny_co64_large.mp4", "mp4", assets::tiny_mp4(Mp4Layout::MoovFirst, 40, true, true));
     add("tiny_mdatfirst_stco.mp4", "mp4", assets::tiny_mp4(Mp4Layout::MdatFirst, 40, false, false));
     for variant in 0..4u8 {
